@@ -65,13 +65,13 @@ func finish(w io.Writer, lexErr error) error {
 
 
 def suberr_wrapped(rw):
-    rw.sub("svg/svg.go", "\t\t\t\t\t\treturn minify.UpdateErrorPosition(err, z, t.Offset)\n", "\t\t\t\t\t\treturn located(err, z, t.Offset)\n", count=1)
+    rw.sub1("svg/svg.go", "\t\t\t\t\treturn minify.UpdateErrorPosition(err, z, t.Offset)\n", "\t\t\t\t\treturn located(err, z, t.Offset)\n")
     rw.append("svg/svg.go", "\nfunc located(err error, z *parse.Input, offset int) error {\n\treturn minify.UpdateErrorPosition(err, z, offset)\n}\n")
 
 
 def suberr_hoisted(rw):
-    rw.sub("svg/svg.go", "\t\t\t\tif err := m.MinifyMimetype(defaultStyleType, w, buffer.NewReader(t.Data), defaultStyleParams); err != nil {\n",
-           "\t\t\t\terr := m.MinifyMimetype(defaultStyleType, w, buffer.NewReader(t.Data), defaultStyleParams)\n\t\t\t\tif err != nil {\n")
+    rw.sub("svg/svg.go", "\t\t\t\tif err := m.MinifyMimetype(defaultStyleType, minifyBuffer, buffer.NewReader(parse.Copy(t.Data)), defaultStyleParams); err == nil {\n",
+           "\t\t\t\terr := m.MinifyMimetype(defaultStyleType, minifyBuffer, buffer.NewReader(parse.Copy(t.Data)), defaultStyleParams)\n\t\t\t\tif err == nil {\n")
 
 
 def js_parse_renamed(rw):
@@ -129,11 +129,11 @@ def ctl_recover(rw):
 
 
 def ctl_suberr_swallowed(rw):
-    rw.sub("svg/svg.go", "\t\t\t\t\t\treturn minify.UpdateErrorPosition(err, z, t.Offset)\n", "\t\t\t\t\t\treturn nil\n", count=1)
+    rw.sub1("svg/svg.go", "\t\t\t\t\treturn minify.UpdateErrorPosition(err, z, t.Offset)\n", "\t\t\t\t\treturn nil\n")
 
 
 def ctl_helper_swallows(rw):
-    rw.sub("svg/svg.go", "\t\t\t\t\t\treturn minify.UpdateErrorPosition(err, z, t.Offset)\n", "\t\t\t\t\t\treturn located(err, z, t.Offset)\n", count=1)
+    rw.sub1("svg/svg.go", "\t\t\t\t\treturn minify.UpdateErrorPosition(err, z, t.Offset)\n", "\t\t\t\t\treturn located(err, z, t.Offset)\n")
     rw.append("svg/svg.go", "\nfunc located(err error, z *parse.Input, offset int) error {\n\tif offset == 0 {\n\t\treturn nil\n\t}\n\treturn minify.UpdateErrorPosition(err, z, offset)\n}\n")
 
 
